@@ -95,7 +95,16 @@ Inductive case :=
   | CCodec (src : option centry) (line : bytes)
            (good_time good_ip good_addr good_b64 : list bytes)
            (panicked : bool) (dec : centry) (qh ip cid : bytes)
-           (cl : list (bytes * client)) (qs : list qobs).
+           (cl : list (bytes * client)) (qs : list qobs)
+  (* a log file too large to replay line by line (more lines than the scan
+     cap): [nm] records with host [hm] followed by [nn] newer ones with host
+     [hn], record k (from 0, oldest) stamped [base + k * step] and numbered
+     k + 1; [cap] = maxFileScanEntries of newSearchParams as the harness reads
+     it; requests without cursor through handleQueryLog with code / ids /
+     oldest.  The file part is [collect] over the lines newest first (what
+     [search_files] is without a cursor: Proofs/QLogParams.v
+     search_files_collect), the rest [search_post]. *)
+  | CBig (cap nm nn base step : Z) (hm hn ip : bytes) (reqs : list (request * Z * list N * Z)).
 
 (** Constructors for the shard files. *)
 Definition CE := Build_centry.
@@ -245,6 +254,38 @@ Definition codec_ok (src : option centry) (line : bytes) (bt bi ba bb : list byt
   eqb_bytes (read_json_value line pIP) ip &&
   eqb_bytes (read_json_value line pCID) cid.
 
+(** *** large-file cases *)
+Definition big_lines (nm nn base step : Z) (hm hn ip : bytes) : list (option entry) :=
+  snd (Z.iter (nm + nn)
+         (fun kl : Z * list (option entry) =>
+            let (k, l) := kl in
+            (k + 1, Some (E (Z.to_N (k + 1)) (base + k * step) 100 (if k <? nm then hm else hn) ip [] 0 false) :: l))
+         (0, [])).
+
+Definition big_cfg : config := Cfg true true 1 [] [].
+
+Definition big_answer (cap : Z) (L : list (option entry)) (q : request) : option outcome :=
+  match parse_with (scan_now cap) q with
+  | None => Some BadRequest
+  | Some p =>
+      match p_older p with
+      | Some _ => None     (* requests with a cursor are not replayed here *)
+      | None =>
+          Some (if p_limit p =? 0 then Ok [] 0 else
+                let (fe, fo) := collect big_cfg p (p_offset p + p_limit p) L 0 0 0 in
+                search_post p [] fe fo)
+      end
+  end.
+
+Definition big_req_ok (cap : Z) (L : list (option entry)) (x : request * Z * list N * Z) : bool :=
+  let '(q, code, ids, oldest) := x in
+  match big_answer cap L q with
+  | Some (Ok es o) => (code =? 0) && eqb_list N.eqb (map e_id es) ids && (o =? oldest)
+  | Some BadRequest => code =? 1
+  | Some Panic => code =? 2
+  | None => false
+  end.
+
 Definition case_ok (c : case) : bool :=
   match c with
   | CHist me bf c0 texts masks steps =>
@@ -255,6 +296,9 @@ Definition case_ok (c : case) : bool :=
       replay me bf texts (tbl_of texts masks) (envR pt ids) (sync (envR pt ids) (sinit c0)) steps
   | CCodec src line bt bi ba bb panicked dec qh ip cid cl qs =>
       codec_ok src line bt bi ba bb panicked dec qh ip cid cl qs
+  | CBig cap nm nn base step hm hn ip reqs =>
+      (cap =? default_scan) &&
+      (let L := big_lines nm nn base step hm hn ip in forallb (big_req_ok cap L) reqs)
   end.
 
 Definition mismatches := Base.Run.mismatches case_ok.
@@ -318,4 +362,13 @@ Definition explain (c : case) :=
        (107, [], 0, eqb_bytes (read_json_value line pQH) qh &&
                     eqb_bytes (read_json_value line pIP) ip &&
                     eqb_bytes (read_json_value line pCID) cid)]
+  | CBig cap nm nn base step hm hn ip reqs =>
+      let L := big_lines nm nn base step hm hn ip in
+      map (fun x : request * Z * list N * Z =>
+             (match big_answer cap L (fst (fst (fst x))) with
+              | Some (Ok es o) => (0, map e_id es, o)
+              | Some BadRequest => (1, [], 0)
+              | Some Panic => (2, [], 0)
+              | None => (-1, [], 0)
+              end, big_req_ok cap L x)) reqs
   end.
